@@ -309,6 +309,23 @@ def m_mock_path_ci(f, case, viol):
     return any(c != c.lower() for c in comps)
 
 
+def m_missing_resurrect(f, case, viol):
+    """mechanism: on a side whose ids are paths a file is changed (write/create) and then deleted by the same user, and the sync
+    manager works on the entry (at least five punts) before that side's delete event has been taken in: get_latest() finds the
+    object MISSING, handle_changed_is_missing() marks the OTHER side unsynced, and the peer's old copy is pushed back to where
+    the user deleted the file.  Needs a path-id acting side and 'write|create P ... delete P' by that side's user; every
+    differing path must be such a P."""
+    flav = str(case.get("cfg", {}).get("flavour", ""))
+    ops = user_ops(case)
+    cand = set()
+    for i, u in enumerate(ops):
+        if u[2] == "delete" and len(flav) >= 2 and flav[u[1]] == "p":
+            if any(v[1] == u[1] and v[2] in ("write", "create") and v[3] == u[3] for v in ops[:i]):
+                cand.add(u[3])
+    paths = _diff_paths(viol)
+    return bool(paths) and all(_unconf(p) in cand for p in paths)
+
+
 def _abs_moves(case, kinds):
     """user moves addressed by account paths that cross a sync-root boundary: [(plan index, side, op, inside rel path, outside path, direction)]"""
     roots = tuple(case.get("cfg", {}).get("roots", ("/local", "/remote")))
@@ -438,7 +455,7 @@ def m_moved_out_race(f, case, viol):
     return _paths_related_to_moves(viol, ok, case)
 
 
-MATCHERS = {"pathless_recreate": m_pathless_recreate, "declined_conflict": m_declined_conflict, "mock_path_ci": m_mock_path_ci, "request_stale_entry": m_request_stale_entry, "late_parent_event": m_late_parent_event, "crash_dup_entry": m_crash_dup_entry, "boundary_folder_move": m_boundary_folder_move, "moved_out_race": m_moved_out_race, "crash_rename_over": m_crash_rename_over, "event_exc": m_event_exc, "half_transfer": m_half_transfer, "history": m_history, "rename_race": m_rename_race, "dirdelete_race": m_dirdelete_race}
+MATCHERS = {"missing_resurrect": m_missing_resurrect, "pathless_recreate": m_pathless_recreate, "declined_conflict": m_declined_conflict, "mock_path_ci": m_mock_path_ci, "request_stale_entry": m_request_stale_entry, "late_parent_event": m_late_parent_event, "crash_dup_entry": m_crash_dup_entry, "boundary_folder_move": m_boundary_folder_move, "moved_out_race": m_moved_out_race, "crash_rename_over": m_crash_rename_over, "event_exc": m_event_exc, "half_transfer": m_half_transfer, "history": m_history, "rename_race": m_rename_race, "dirdelete_race": m_dirdelete_race}
 
 
 def match_one(f, case, viol):
